@@ -253,6 +253,11 @@ PY_CMP = {'lt': lambda a, b: a < b, 'gt': lambda a, b: a > b, 'le': lambda a, b:
           'rnd': lambda a, b: (31 * a + 17 * b + a * b) % 3 == 0, 'err': lambda a, b: False}
 STRICT_WEAK = {'lt', 'gt', 'mod4lt', 'absgt', 'div3lt', 'false'}
 PY_KEY = {'mod4': lambda a: a % 4, 'abs': abs, 'neg': lambda a: -a, 'id': lambda a: a, 'sq': lambda a: a * a}
+PY_KEEP = {'sqeven': lambda x: x * x if x % 2 == 0 else None, 'posid': lambda x: x if x > 0 else None, 'id': lambda x: x,
+           'inc': lambda x: x + 1}
+PY_CAT = {'pairx': lambda x: [x, x + 1], 'rep3': lambda x: [x] * (x % 3), 'none': lambda x: []}
+PY_KEEP2 = {'ltsum': lambda x, y: x + y if x < y else None, 'add': lambda x, y: x + y, 'snd': lambda x, y: y}
+PY_CAT2 = {'tup': lambda x, y: [x, y], 'tupsum': lambda x, y: [x + y], 'tup3': lambda x, y: [y, x, y]}
 PY_SUBST = {'upper': lambda m: m.upper(), 'const': lambda m: b'Z', 'dup': lambda m: m + m}
 
 
@@ -665,6 +670,21 @@ def _oracle(f, args):
         else:
             r = l[n:] if n >= 0 else l[:max(0, len(l) + n)]
         return mk(r), same
+    if f in ('keep', 'mapcat', 'count') and len(args) in (2, 3) and all(a[0] in ('(', '[') for a in args[1:]) and not (f == 'count' and len(args) == 2):
+        seqs = [ints_of(a[1]) for a in args[1:]]
+        g = fn_of(args[0], {('keep', 2): PY_KEEP, ('keep', 3): PY_KEEP2, ('mapcat', 2): PY_CAT, ('mapcat', 3): PY_CAT2,
+                            ('count', 3): PY_CMP}[(f, len(args))])
+        vals = [g(*row) for row in zip(*seqs)]
+        if f == 'keep': return A([I(v) for v in vals if v is not None]), same
+        if f == 'mapcat': return A([I(e) for v in vals for e in v]), same
+        return I(sum(1 for v in vals if v)), same
+    if f == 'group-by':
+        if len(args) != 2 or args[1][0] not in ('(', '['): raise NoOpinion()
+        key = fn_of(args[0], PY_KEY)
+        groups = collections.OrderedDict()
+        for x in ints_of(args[1][1]):
+            groups.setdefault(key(x), []).append(x)
+        return ('{', [(I(k), A([I(x) for x in v])) for k, v in groups.items()]), same
     if f in ('take-while', 'drop-while', 'take-until', 'drop-until', 'filter', 'count', 'find-index'):
         if len(args) != 2 or args[1][0] not in ('(', '['): raise NoOpinion()
         p = fn_of(args[0], PY_PRED)
